@@ -2,6 +2,7 @@ package main
 
 import (
 	"bufio"
+	"bytes"
 	"context"
 	"crypto/sha256"
 	"encoding/hex"
@@ -32,6 +33,10 @@ type e2eSpec struct {
 	Conns int    `json:"conns"`
 	Bytes int64  `json:"bytes"` // total over all connections
 	Group int    `json:"group"` // specs with the same non-zero group share one listener and run concurrently
+	// WindowMS > 0: the transfer is observed for that long and then abandoned (bytes moved within the window are
+	// compared with the bound); CloseAtMS > 0: the proxy's listeners are closed at that time, the transfer goes on
+	WindowMS  int `json:"window_ms,omitempty"`
+	CloseAtMS int `json:"close_at_ms,omitempty"`
 }
 
 type e2eResult struct {
@@ -84,7 +89,7 @@ func e2ePlan(tier string) []e2eSpec {
 		}
 		total += int64(conns) * (maxCall + 4096) // the transfer is really above burst + factor*R after the slack is subtracted
 		total -= total % int64(conns)
-		p = append(p, e2eSpec{"e2e", dir, mode, rl, wl, conns, total, group})
+		p = append(p, e2eSpec{Kind: "e2e", Dir: dir, Mode: mode, RL: rl, WL: wl, Conns: conns, Bytes: total, Group: group})
 	}
 	// limited directions
 	add("down", "plain", 1*MiB, 0, 1, 2, 0)
@@ -101,6 +106,30 @@ func e2ePlan(tier string) []e2eSpec {
 	// no limits at all
 	add("down", "plain", 0, 0, 1, 0, 0)
 	add("up", "tunnel", 0, 0, 1, 0, 0)
+	// many connections behind a small limit: the backlog of post-paid calls grows far beyond any
+	// plausible per-call patience; very low limits; a transfer in flight while the listener is closed
+	// (graceful shutdown closes listeners first).  Observed for a fixed window, then abandoned.
+	box := func(dir, mode string, rl, wl int64, conns int, extra int64, window, closeAt int) {
+		lim := rl
+		if dir == "up" {
+			lim = wl
+		}
+		total := burstOf(lim) + extra
+		total -= total % int64(conns)
+		p = append(p, e2eSpec{Kind: "e2e", Dir: dir, Mode: mode, RL: rl, WL: wl, Conns: conns, Bytes: total, WindowMS: window, CloseAtMS: closeAt})
+	}
+	box("down", "plain", 64*1024, 0, 24, 12*MiB, 6500, 0)
+	box("down", "tunnel", 2*1024, 0, 8, 8*MiB, 6500, 0)
+	box("up", "plain", 0, 64*1024, 24, 12*MiB, 6500, 0)
+	box("up", "tunnel", 0, 2*1024, 8, 8*MiB, 6500, 0)
+	box("down", "plain", 64*1024, 0, 2, 8*MiB, 5000, 1500)
+	box("up", "tunnel", 0, 64*1024, 2, 8*MiB, 5000, 1500)
+	if tier == "thorough" {
+		box("down", "tunnel", 64*1024, 0, 32, 16*MiB, 12000, 0)
+		box("up", "plain", 0, 4*1024, 16, 8*MiB, 12000, 0)
+		box("down", "tunnel", 1*MiB, 0, 3, 16*MiB, 6000, 2000)
+		box("up", "plain", 0, 1*MiB, 3, 16*MiB, 6000, 2000)
+	}
 	if tier == "thorough" {
 		g := 2
 		for _, rate := range []int64{1 * MiB, 2 * MiB, 4 * MiB} {
@@ -161,6 +190,20 @@ func payloadHash(n int64) string {
 	return hex.EncodeToString(h.Sum(nil))
 }
 
+// what the origin has received of the uploads of one spec (id): never more than the proxy accepted
+type byteCounter struct{ n atomic.Int64 }
+
+func (b *byteCounter) Write(p []byte) (int, error) { b.n.Add(int64(len(p))); return len(p), nil }
+
+var upCounters sync.Map
+
+func upCounter(id string) *byteCounter {
+	c, _ := upCounters.LoadOrStore(id, &byteCounter{})
+	return c.(*byteCounter)
+}
+
+var specID atomic.Int64
+
 func originHandler() http.Handler {
 	mux := http.NewServeMux()
 	mux.HandleFunc("/down", func(w http.ResponseWriter, r *http.Request) {
@@ -171,7 +214,8 @@ func originHandler() http.Handler {
 	})
 	mux.HandleFunc("/up", func(w http.ResponseWriter, r *http.Request) {
 		h := sha256.New()
-		n, _ := io.Copy(h, r.Body)
+		ctr := upCounter(r.URL.Query().Get("id"))
+		n, _ := io.Copy(io.MultiWriter(h, ctr), r.Body)
 		fmt.Fprintf(w, "%d %s", n, hex.EncodeToString(h.Sum(nil)))
 	})
 	return mux
@@ -266,6 +310,10 @@ func (r *rig) transfer(spec e2eSpec) e2eResult {
 	var total atomic.Int64
 	var mu sync.Mutex
 	fail := func(err error) {
+		var te net.Error
+		if spec.WindowMS > 0 && errors.As(err, &te) && te.Timeout() {
+			return // the observation window ended while this connection was still waiting: not a failure
+		}
 		mu.Lock()
 		if res.Err == "" {
 			res.Err = err.Error()
@@ -277,7 +325,22 @@ func (r *rig) transfer(spec e2eSpec) e2eResult {
 		mu.Unlock()
 	}
 	stop := make(chan struct{})
+	id := strconv.FormatInt(specID.Add(1), 10)
+	boxed := spec.WindowMS > 0
 	start := time.Now()
+	deadline := start.Add(e2eDeadline)
+	if boxed {
+		deadline = start.Add(time.Duration(spec.WindowMS) * time.Millisecond)
+	}
+	if spec.CloseAtMS > 0 {
+		go func() {
+			select {
+			case <-stop:
+			case <-time.After(time.Duration(spec.CloseAtMS) * time.Millisecond):
+				r.proxy.Close() // closes the listeners only; connections go on
+			}
+		}()
+	}
 	if spec.Dir == "down" {
 		go func() {
 			tk := time.NewTicker(100 * time.Millisecond)
@@ -308,7 +371,7 @@ func (r *rig) transfer(spec e2eSpec) e2eResult {
 			}
 			defer c.Close()
 			// a transfer that stalls (e.g. a limiter with rate 0) ends here and is reported as incomplete
-			c.SetDeadline(start.Add(e2eDeadline))
+			c.SetDeadline(deadline)
 			host := r.originLn.Addr().String()
 			if spec.Dir == "down" {
 				fmt.Fprintf(c, "GET %s HTTP/1.1\r\nHost: %s\r\n\r\n", r.target(spec.Mode, "/down?size="+strconv.FormatInt(per, 10)), host)
@@ -323,6 +386,9 @@ func (r *rig) transfer(spec e2eSpec) e2eResult {
 				}
 				h := sha256.New()
 				buf := make([]byte, 32768)
+				exp := &payload{left: per}
+				ebuf := make([]byte, 32768)
+				prefixOK := true
 				var got int64
 				for {
 					n, err := resp.Body.Read(buf)
@@ -330,13 +396,27 @@ func (r *rig) transfer(spec e2eSpec) e2eResult {
 						h.Write(buf[:n])
 						got += int64(n)
 						total.Add(int64(n))
+						if boxed { // an abandoned transfer is checked against the expected prefix
+							io.ReadFull(exp, ebuf[:n])
+							if !bytes.Equal(buf[:n], ebuf[:n]) {
+								prefixOK = false
+							}
+						}
 					}
 					if err != nil {
-						if err != io.EOF {
+						if err != io.EOF && !boxed {
 							fail(err)
 						}
 						break
 					}
+				}
+				if boxed {
+					if !prefixOK {
+						mu.Lock()
+						res.HashOK = false
+						mu.Unlock()
+					}
+					return
 				}
 				if got != per || hex.EncodeToString(h.Sum(nil)) != want {
 					mu.Lock()
@@ -347,14 +427,18 @@ func (r *rig) transfer(spec e2eSpec) e2eResult {
 			}
 			// upload
 			fmt.Fprintf(c, "POST %s HTTP/1.1\r\nHost: %s\r\nContent-Type: application/octet-stream\r\nContent-Length: %d\r\n\r\n",
-				r.target(spec.Mode, "/up"), host, per)
+				r.target(spec.Mode, "/up?id="+id), host, per)
 			if _, err := io.CopyBuffer(c, &payload{left: per}, make([]byte, 32768)); err != nil {
-				fail(err)
+				if !boxed {
+					fail(err)
+				}
 				return
 			}
 			resp, err := http.ReadResponse(br, &http.Request{Method: "POST"})
 			if err != nil {
-				fail(err)
+				if !boxed { // an observed-then-abandoned upload ends with the window, not with a response
+					fail(err)
+				}
 				return
 			}
 			body, _ := io.ReadAll(resp.Body)
@@ -370,6 +454,10 @@ func (r *rig) transfer(spec e2eSpec) e2eResult {
 	}
 	wg.Wait()
 	res.Moved = total.Load()
+	if boxed && spec.Dir == "up" {
+		// what the origin has received so far is a lower bound of what the proxy accepted from the clients
+		res.Moved = upCounter(id).n.Load()
+	}
 	res.ElapsedNS = int64(time.Since(start))
 	close(stop)
 	mu.Lock()
